@@ -187,6 +187,9 @@ func VerifC01ContainerBinop() {
 		vsym.Observe(uint64(vKindOf(r)))
 		if inv {
 			vCheckWf(r, true, true)
+			if !r.isEmpty() {
+				vsym.Assert(r.validate() == nil, "validate")
+			}
 		} else {
 			vCheckExact(r, sp, true, false)
 		}
@@ -418,7 +421,12 @@ func VerifC01BitmapBinop() {
 				},
 			}
 		}
-		vBitmapExact(r, vBSpec{has: spec, card: card, chunk: chunk}, false)
+		if vsym.Param("inv") == 1 {
+			vBitmapWf(r, true)
+			vsym.Assert(r.Validate() == nil, "validate")
+		} else {
+			vBitmapExact(r, vBSpec{has: spec, card: card, chunk: chunk}, false)
+		}
 		vsym.Observe(uint64(len(r.highlowcontainer.keys)))
 	}
 	if form != 2 {
